@@ -188,29 +188,32 @@ def run(rep, tier):
         "other",
         "Structural clauses of C30 on crates/moonbit. R30.1 (MIR): Imports.packages and Imports.ns are touched only by "
         "PkgResolver::qualify_package; the insertion lies on the vacant edge of a look-up with the same key, under "
-        "`name != this`; the inserted alias is a clone of the result of Ns::tmp on the same Imports value; both return "
-        "paths format exactly the stored alias into `@{alias}.`. R30.2 (MIR+syn): write_moon_pkg iterates "
-        "imports.packages with element-preserving adaptors only, the closure's path is key.replace('.', '/') and the "
-        "alias the value, the list is sorted before it is joined into the output; every caller passes "
-        "package_import.get(<package name>). R30.3 (MIR+syn): in each package-emitting callback the directory, the "
-        "look-up key, the registered interface name and the generator's `this` are one and the same value, every file "
-        "is pushed under `{directory}/`, the directory is name.replace('.', '/'); gen and async-core likewise. R30.4 "
-        "(MIR): every `this`/`name` argument of qualify_package originates, through pass-through calls and parameters "
+        "`name != this`; the inserted alias is a clone of the result of Ns::tmp on the same Imports value, its base is a "
+        "'.'-free segment of the name; both return paths format exactly the stored alias into `@{alias}.`. R30.2 "
+        "(MIR+syn): write_moon_pkg iterates imports.packages with element-preserving adaptors only, the closure's path "
+        "is key.replace('.', '/') and the alias the value, the list is sorted before it is joined into the output; every "
+        "caller passes package_import.get(<package name>). R30.3 (MIR+syn): in each package-emitting callback the "
+        "directory, the look-up key, the registered interface name and the generator's `this` are one and the same "
+        "value (made unique by interface_ns), every file is pushed under `{directory}/`, the directory is "
+        "name.replace('.', '/'); gen, moon.mod.json and async-core likewise. R30.4 (MIR): every `this`/`name` argument "
+        "of qualify_package originates, through pass-through calls, parameters, closure captures and generator fields "
         "only, from a registered interface name, world_name, ASYNC_CORE_DIR, gen_dir or the generator's own name; "
-        "world_name/interface_name and the emitting callbacks contain no case conversion. R30.5 (MIR+syn): async-core "
-        "is emitted by finish on every path, unless !is_required(); every reference to it is accompanied by the flags "
-        "that make is_required() true. R30.6 (MIR): moon.pkg.json is rendered after the package's generator finished "
-        "and on every returning path of the import callbacks. R30.7 (syn + bundled files): no generator source "
-        "spells a `@pkg.` qualifier literally; the bundled async-core sources use only aliases their bundled "
-        "moon.pkg.json declares. R30.8 (MIR+syn): the glue strings recorded for the link package (MoonBit.export, "
-        "written to <gen_dir>/ffi.mbt) contain only qualifiers computed relative to gen_dir, and every such qualifier "
-        "goes there. NOT decided: that text qualified relative to an interface package lands in that package's own files "
-        "(InterfaceGenerator.src/ffi are plain strings), MoonBit's package resolution itself, "
-        "that interfaces are visited in dependency order (wit-parser), packages the user keeps under --ignore-stub, "
-        "validity of an alias as a MoonBit identifier, uniqueness of Ns::tmp results (C26).",
+        "world_name/interface_name and the emitting callbacks contain no case conversion; qualifier() goes through "
+        "qualify_package whenever the owner's package differs from `this`. R30.5 (MIR+syn): async-core is emitted by "
+        "finish on every path, unless !is_required(); every reference to it is accompanied by the flags that make "
+        "is_required() true. R30.6 (MIR): moon.pkg.json is rendered after the package's generator finished, on every "
+        "returning path of the import callbacks and, unless --ignore-stub, of the export callbacks; core's "
+        "WorldGenerator::generate never calls an import callback after finish_imports nor anything after finish. "
+        "R30.7 (syn + bundled files): no generator source spells a `@pkg.` qualifier literally; the bundled async-core "
+        "sources use only aliases their bundled moon.pkg.json declares. R30.8 (MIR+syn): the glue strings recorded for "
+        "the link package (MoonBit.export, written to <gen_dir>/ffi.mbt) contain only qualifiers computed relative to "
+        "gen_dir, and every such qualifier goes there. NOT decided: that text qualified relative to an interface "
+        "package lands in that package's own files (InterfaceGenerator.src/ffi are plain strings), MoonBit's package "
+        "resolution itself, that interfaces are visited in dependency order (wit-parser), packages the user keeps "
+        "under --ignore-stub, uniqueness of Ns::tmp results (C26).",
         trusted_base=["rustc MIR of wit-bindgen-moonbit", "syn parse of crates/moonbit/src/{lib,pkg,async_support}.rs",
                       "std HashMap / slice::sort / str::replace semantics", "Ns::tmp returns names unique per Ns (C26)",
-                      "WorldGenerator::generate call order (imports, finish_imports, exports, finish)"],
+                      "bundled files crates/moonbit/src/async/* read as data"],
         assumptions=["WIT identifiers contain no '.' or '/'", "wit-parser elaborates worlds so that every interface a "
                      "type refers to is imported or exported before its user"],
     )
@@ -349,6 +352,21 @@ def run(rep, tier):
         rep.floor("R30.1", "mutating calls on `packages` in qualify_package", len(ins), 1)
         tmps = f.calls("Ns::tmp")
         rep.ob("R30.1", "one fresh alias is requested (Ns::tmp)", len(tmps) == 1, f"{len(tmps)}", f.loc())
+        for t_ in tmps:
+            # the alias base is one '.'-separated segment of `name`: a dotted alias would read as nested qualifiers
+            o = f.origin(t_.args[1])
+            found = False
+            for _ in range(8):
+                if o.get("kind") != "call" or not o["call"].args:
+                    break
+                cl = o["call"]
+                if cl.matches(re.compile(r"str::<impl str>::r?split(_once|n|_terminator)?$")):
+                    recv = peel(f, f.origin(cl.args[0]))
+                    found = recv.get("kind") == "arg" and recv.get("n") == name_n and any(is_lit(f.origin(a), ".") for a in cl.args[1:])
+                    break
+                o = f.origin(cl.args[0])
+            rep.ob("R30.1", "the alias base is a '.'-free segment of `name` (split on '.')", found,
+                   "the alias may contain '.', so `@alias.x` no longer names one package", f.loc(t_.bb))
         for x, l in ins:
             nm = mir.norm(x.callee).split("::")[-1]
             rep.ob("R30.1", f"packages.{nm}: on the selected table", l == imp_local, "", f.loc(x.bb))
@@ -840,21 +858,30 @@ def run(rep, tier):
                 return
             rep.ob("R30.4", f"{where}: `{role}` can be traced to its source", False, describe(h, o), h.loc())
 
-        i = 0
-        while i < len(sinks):
-            callee, idx, role = sinks[i]
-            i += 1
-            pat = callee.npath.replace("crate::", "", 1)
-            for h in c.fns.values():
-                for x in h.calls(pat):
-                    if idx >= len(x.args):
-                        continue
-                    nsites += 1
-                    rep.saw(h)
-                    where = f"{h.npath.split('::')[-1].replace('{closure', 'closure').rstrip('}')} -> {callee.npath.split('::')[-1]}"
-                    if "closure" in h.npath:
-                        where = f"{h.npath.rsplit('::{closure', 1)[0].split('::')[-1]}(closure) -> {callee.npath.split('::')[-1]}"
-                    classify(h, h.origin(x.args[idx]), role, where)
+        state = {"next": 0}
+
+        def site_name(h, callee):
+            nm = h.npath.split("::")[-1]
+            if "closure" in h.npath:
+                nm = h.npath.rsplit("::{closure", 1)[0].split("::")[-1] + "(closure)"
+            return f"{nm} -> {callee.npath.split('::')[-1]}"
+
+        def drain():
+            """trace the argument at every call site of every pending (function, parameter)"""
+            nonlocal nsites
+            while state["next"] < len(sinks):
+                callee, idx, role = sinks[state["next"]]
+                state["next"] += 1
+                pat = callee.npath.replace("crate::", "", 1)
+                for h in c.fns.values():
+                    for x in h.calls(pat):
+                        if idx >= len(x.args):
+                            continue
+                        nsites += 1
+                        rep.saw(h)
+                        classify(h, h.origin(x.args[idx]), role, site_name(h, callee))
+
+        drain()
         # field writers
         for ty, fld in sorted(OK_FIELDS):
             n = 0
@@ -863,21 +890,8 @@ def run(rep, tier):
                     names = rv.get("fields") or []
                     if fld[1:] in names:
                         n += 1
-                        o = h.origin(rv["ops"][names.index(fld[1:])])
-                        sub_sinks_before = len(sinks)
-                        classify(h, o, f"{ty}{fld}", f"{h.npath.split('::')[-1]} (constructs {ty})")
-                        # newly discovered plain parameters are processed as well
-                        j = sub_sinks_before
-                        while j < len(sinks):
-                            callee, idx, role = sinks[j]
-                            j += 1
-                            pat = callee.npath.replace("crate::", "", 1)
-                            for h2 in c.fns.values():
-                                for x in h2.calls(pat):
-                                    if idx < len(x.args):
-                                        nsites += 1
-                                        classify(h2, h2.origin(x.args[idx]), role,
-                                                 f"{h2.npath.split('::')[-1]} -> {callee.npath.split('::')[-1]}")
+                        classify(h, h.origin(rv["ops"][names.index(fld[1:])]), f"{ty}{fld}", f"{h.npath.split('::')[-1]} (constructs {ty})")
+                        drain()
                 for b, i_, s in h.field_stores(fld[1:]):
                     if mir.base_type(h.locals[s["p"]["l"]]) != ty:
                         continue
@@ -885,19 +899,8 @@ def run(rep, tier):
                     o = h.stored(s)
                     if o.get("kind") == "rv":
                         o = {"kind": "unknown"}
-                    sub_sinks_before = len(sinks)
                     classify(h, o, f"{ty}{fld}", f"{h.npath.split('::')[-1]} (assigns {ty}{fld})")
-                    j = sub_sinks_before
-                    while j < len(sinks):
-                        callee, idx, role = sinks[j]
-                        j += 1
-                        pat = callee.npath.replace("crate::", "", 1)
-                        for h2 in c.fns.values():
-                            for x in h2.calls(pat):
-                                if idx < len(x.args):
-                                    nsites += 1
-                                    classify(h2, h2.origin(x.args[idx]), role,
-                                             f"{h2.npath.split('::')[-1]} -> {callee.npath.split('::')[-1]}")
+                    drain()
             rep.floor("R30.4", f"writers of {ty}{fld}", n, 1)
 
         rep.floor("R30.4", "call sites whose package-name arguments were traced", nsites, 40)
